@@ -220,7 +220,7 @@ ELEM = st.one_of(
 
 def resolve(rows, elems):
     """Turn abstract elements into concrete temperatures against the current row set."""
-    ts, kinds = [], []
+    ts, kinds, bases = [], [], []
 
     def far(t):
         return all(abs(t - r) >= FAR for r in rows) and all(abs(t - x) >= FAR or abs(t - x) <= TOL_IN for x in ts)
@@ -234,16 +234,19 @@ def resolve(rows, elems):
                 if any(lo < x < hi for x in ts):
                     kinds.append("several-per-interval")
                 ts.append(t)
+                bases.append(t)
                 kinds.append("mid-offcentre" if abs(b - 0.5) > 1e-9 else "mid-centre")
         elif kind == "top":
             t = round(max(rows + ts) + a, 6)
             if far(t):
                 ts.append(t)
+                bases.append(t)
                 kinds.append("above-top")
         elif kind == "bottom":
             t = round(min(rows + ts) - a, 6)
             if far(t):
                 ts.append(t)
+                bases.append(t)
                 kinds.append("below-bottom")
         elif kind == "near":
             r = rows[min(int(a * len(rows)), len(rows) - 1)]
@@ -252,8 +255,10 @@ def resolve(rows, elems):
         elif kind == "existing":
             ts.append(rows[min(int(a * len(rows)), len(rows) - 1)])
             kinds.append("existing-row")
-        elif kind == "dup" and ts:
-            ts.append(ts[min(int(a * len(ts)), len(ts) - 1)] + b)
+        elif kind == "dup" and bases:
+            # duplicates hang off a base value only (never off another duplicate / near value), so every pair of
+            # requested values stays either within 4e-7 K or >= 1e-3 K apart
+            ts.append(bases[min(int(a * len(bases)), len(bases) - 1)] + b)
             kinds.append("duplicate-in-request")
     return ts, kinds
 
